@@ -1,43 +1,166 @@
 """C09: bus bridges, AXI-Lite converters and the AXI-Lite SRAM - flat memory towards the master,
-protocol-legal master towards the slave side.  G-mode (exhaustive at reduced parameters)."""
+protocol-legal master towards the slave side.  G-mode (exhaustive at reduced parameters).
+
+The TLA+ contracts (specs/bridges) give every verdict; this module only batches the configurations,
+runs the batches in a few worker processes (each batch is an independent closed-loop graph
+construction) and merges what they recorded into the report in a fixed order."""
+import multiprocessing as mp
+import os
+import traceback
+
 from ..gcheck import GFamily, run_batches
 from ..families import bridges as fam
+from ..report import Report, MachineryError
 
 _M = ["ReadReturnsLastWrite", "OneResponsePerRequest", "ErrorsPropagated", "MasterValidHold"]
 M_INVS = {"axil": _M, "wb": _M, "axi": _M + ["BurstsAnswered"], "ahb": _M}
 S_INVS = ["SlaveValidHold", "SlaveWishbone", "SlaveAxiBurst", "SlaveCsrStrobes"]
 PROPS = ["Served"]
 MODNAME = {"axil": "BridgeAxiLite", "wb": "BridgeWb", "axi": "BridgeAxi", "ahb": "BridgeAhb"}
+NAMES = {"sram": "AXILiteSRAM", "axil2wb": "AXILite2Wishbone", "down": "AXILiteDownConverter", "up": "AXILiteUpConverter",
+         "conv": "AXILiteConverter", "axil2csr": "AXILite2CSR", "axil2axi": "AXILite2AXI", "wb2axil": "Wishbone2AXILite",
+         "wb2axi": "Wishbone2AXI", "axi2axil": "AXI2AXILite", "axi2wb": "AXI2Wishbone", "ahb2wb": "AHB2Wishbone",
+         "chain_wb_axil": "SoCBusHandler.add_adapter(wishbone->axi-lite)",
+         "chain_axil_wb": "SoCBusHandler.add_adapter(axi-lite->wishbone)"}
+NPROC = 4
 
 
 def describe(s):
-    return "%s[%s](%s)" % (s["kind"], s["mp"], ", ".join("%s=%s" % (k, v) for k, v in sorted(s.items())
-                                                         if k not in ("kind", "mp")))
+    return "%s(%s)" % (NAMES.get(s["kind"], s["kind"]),
+                       ", ".join("%s=%s" % (k, v) for k, v in sorted(s.items()) if k not in ("kind", "mp", "alone", "cost")))
 
 
-def family(mp):
-    invs = M_INVS[mp] + S_INVS
+def family(mp_):
+    invs = M_INVS[mp_] + S_INVS
     cm = {k: k for k in invs}
     cm["Served"] = "BoundedService"
-    return GFamily("bridges/%sGraph" % MODNAME[mp], "bridges/%sTrace" % MODNAME[mp], "harness.families.bridges:make",
+    return GFamily("bridges/%sGraph" % MODNAME[mp_], "bridges/%sTrace" % MODNAME[mp_], "harness.families.bridges:make",
                    hint=fam.Hint(), clause_map=cm, describe=describe), invs
+
+
+class _Recorder:
+    """what run_batches reports, recorded in a worker process and replayed on the real Report by the
+    parent (so replay files are numbered and KNOWN-FINDING / VIOLATION lines printed in one place)"""
+    def __init__(self, prop, tier, seed):
+        self.seed = seed
+        self.calls = []
+        self._probe = Report(prop, tier, seed)
+
+    def add(self, **kw):
+        self.calls.append(("add", kw))
+
+    def sample(self, x, cap=8):
+        self.calls.append(("sample", (x, cap)))
+
+    def violation(self, sig, replay, text):
+        self.calls.append(("violation", (sig, replay, text)))
+        return self._probe.match_known(sig) is None
+
+
+def batches_of(cfgs):
+    """[(mp, live, [cfg, ...])]: DUTs expected to hit a listed finding and big ones alone, the rest in
+    batches of one master protocol (one TLC run explores all DUTs of a batch)"""
+    out = []
+    for mp_ in ("axil", "wb", "axi", "ahb"):
+        for live in (1, 0):
+            mine = [c for c in cfgs if c[0]["mp"] == mp_ and int(bool(c[0].get("live"))) == live]
+            alone = [c for c in mine if c[0].get("alone")]
+            rest = [c for c in mine if not c[0].get("alone")]
+            out += [(mp_, live, [c]) for c in alone]
+            cur, cost = [], 0
+            for c in rest:
+                w = c[0].get("cost", 1)
+                if cur and cost + w > 6:
+                    out.append((mp_, live, cur))
+                    cur, cost = [], 0
+                cur.append(c)
+                cost += w
+            if cur:
+                out.append((mp_, live, cur))
+    return out
+
+
+def _worker(args):
+    prop, tier, seed, idx, mp_, live, batch = args
+    from .. import py312_tracer
+    py312_tracer.install()
+    rec = _Recorder(prop, tier, seed)
+    f, invs = family(mp_)
+    try:
+        stats = run_batches(f, rec, [batch], invs, PROPS if live else [], spec_budget=300000, total_budget=1200000,
+                            followup=True, log=lambda *a: None, tlc_timeout=3000)
+        return idx, rec.calls, stats, None
+    except MachineryError as ex:
+        return idx, rec.calls, [], "machinery: %s" % ex
+    except Exception:
+        return idx, rec.calls, [], traceback.format_exc()
 
 
 def run(prop, report, tier, seed):
     cfgs = fam.configs(tier)
-    report.assume("masters and partners are protocol-legal: offers held until accepted, AXI-Lite AW/W in any order, "
-                  "up to k requests per direction outstanding; bytes carry one of two values; memories of 2-8 words; "
-                  "every chain ends in the repository's own memory of the slave-side protocol behind a harness stall "
-                  "shim whose handshakes are delayed by the environment")
-    stats = []
-    for mp in ("axil", "wb", "axi", "ahb"):
-        mine = [c for c in cfgs if c[0]["mp"] == mp]
-        if not mine:
-            continue
-        f, invs = family(mp)
-        small = [c for c in mine if not c[0].get("big")]
-        big = [c for c in mine if c[0].get("big")]
-        batches = [small[i:i + 6] for i in range(0, len(small), 6)] + [[c] for c in big]
-        stats += run_batches(f, report, batches, invs, PROPS, spec_budget=600000, total_budget=2500000, followup=True)
-    report.add(duts_explored=len(stats), clauses=sorted(set(sum(M_INVS.values(), []))) + S_INVS + PROPS, per_dut=stats)
+    report.assume("masters and partners are protocol-legal: every offer is held with its payload until accepted, AXI(-Lite) "
+                  "address and data in any order, up to k requests per direction outstanding, responses accepted at any "
+                  "time; AXI bursts of 1-4 full-width beats (FIXED/INCR/WRAP); AHB single transfers only (AHB2Wishbone has "
+                  "no burst support)")
+    report.assume("reduced parameters: bytes carry one of two values, memories of 2-8 words, data widths 8/16 bit where the "
+                  "class accepts them (32/64 bit with a reduced write alphabet otherwise); every chain ends in the "
+                  "repository's own memory of the slave-side protocol behind a harness stall shim (acknowledge / ready / "
+                  "response delayed by the environment; Wishbone acknowledge latency >= 1)")
+    report.assume("error responses are produced by a faulting upper half of the backing memory (SLVERR / Wishbone err with ack)")
+    bl = batches_of(cfgs)
+    jobs = [(prop, tier, seed, i, m, l, b) for i, (m, l, b) in enumerate(bl)]
+    # biggest first, results merged in batch order
+    order = sorted(jobs, key=lambda j: -sum(c[0].get("cost", 1) for c in j[6]))
+    results = {}
+    ctx = mp.get_context("fork")
+    nproc = int(os.environ.get("VERIF_C09_PROCS", NPROC))
+    with ctx.Pool(nproc, maxtasksperchild=1) as pool:
+        # the workers create their own (non-daemonic-safe) stepper pools: run them as plain processes
+        pass
+    procs = _run_jobs(order, nproc)
+    for idx, calls, stats, err in procs:
+        results[idx] = (calls, stats, err)
+    all_stats = []
+    errors = []
+    for i in range(len(bl)):
+        calls, stats, err = results[i]
+        for name, a in calls:
+            if name == "add":
+                report.add(**a)
+            elif name == "sample":
+                report.sample(a[0], cap=6)
+            else:
+                report.violation(*a)
+        all_stats += stats
+        if err:
+            errors.append("batch %d (%s): %s" % (i, ", ".join(describe(c[0]) for c in bl[i][2]), err))
+    report.add(duts_explored=len(all_stats), configurations=len(cfgs), batches=len(bl),
+               clauses=sorted(set(sum(M_INVS.values(), []))) + S_INVS + PROPS, per_dut=all_stats)
+    if errors:
+        raise MachineryError("; ".join(errors)[:4000])
     report.cov["exhaustive"] = True
+
+
+def _run_jobs(jobs, nproc):
+    """run _worker(job) in at most nproc plain (non-daemonic) processes; -> list of results"""
+    ctx = mp.get_context("fork")
+    pending = list(jobs)
+    running = []
+    out = []
+    q = ctx.Queue()
+
+    def target(job, q):
+        q.put(_worker(job))
+    while pending or running:
+        while pending and len(running) < nproc:
+            job = pending.pop(0)
+            p = ctx.Process(target=target, args=(job, q))
+            p.start()
+            running.append((p, job))
+        res = q.get()
+        out.append(res)
+        for p, job in list(running):
+            if job[3] == res[0]:
+                p.join()
+                running.remove((p, job))
+    return out
